@@ -13,6 +13,11 @@ import FordModel.ProcPrefix
 import FordModel.Lemmas.ProcPrefix
 import FordModel.DeclLine
 import FordModel.Lemmas.DeclLine
+import FordModel.SortComp
+import FordModel.Lemmas.SortComp
+import FordModel.CharSel
+import FordModel.ProcLine
+import FordModel.Lemmas.TypeSpecChar
 import FordModel.Generated.C18
 namespace Ford.C18
 open Ford Ford.Html Ford.Show Ford.Generated.C18
@@ -631,5 +636,223 @@ open Ford.ProcPrefix in
 theorem heading_argument_list_blanks :
     procArgs (chars! "( a ,b,  c )") = [chars! "a", chars! "b", chars! "c"] ∧
     procArgs (chars! "()") = [] ∧ procArgs (chars! "( )") = [] := by decide
+
+/-! ## round 6: the option `sort` and the argument list of a heading; the parameters of a character selector -/
+
+open Ford.SortComp in
+/-- obligation on the two regenerated constants ("argument list ... is textually the declaration"): the collection
+    from which `proc_line` assembles the argument list of a heading is not one of the collections that
+    `sort_components` sorts in place -/
+theorem heading_args_not_sorted : sortedCollections.contains headingArgsCollection = false := by decide
+
+open Ford.SortComp in
+/-- "argument list": for every value of the option `sort`, every entity and whatever its other collections hold, the
+    argument list of the heading after `sort_components` is the argument list before it - the calling sequence of the
+    procedure statement (`heading_argument_list`), never a sorted one -/
+theorem heading_args_any_sort_option (o : Opt) (e : Entity) :
+    headingArgs headingArgsCollection (sortComponents sortedCollections o e) = headingArgs headingArgsCollection e := by
+  unfold headingArgs
+  rw [coll_sortComponents]
+  cases keyFn o with
+  | none => rfl
+  | some k =>
+    have hn : ¬ (sortedCollections.contains headingArgsCollection = true) := by
+      intro hc; rw [heading_args_not_sorted] at hc; cases hc
+    simp only [if_neg hn]
+
+open Ford.SortComp in
+/-- the general form: whatever the table of sorted collections, a collection that is not in it keeps its order -/
+theorem sort_keeps_unlisted (tbl : List Str) (n : Str) (h : tbl.contains n = false) (o : Opt) (e : Entity) :
+    coll n (sortComponents tbl o e) = coll n e := by
+  rw [coll_sortComponents]
+  cases keyFn o with
+  | none => rfl
+  | some k =>
+    have hn : ¬ (tbl.contains n = true) := by
+      intro hc; rw [h] at hc; cases hc
+    simp only [if_neg hn]
+
+open Ford.SortComp in
+/-- "each displayed variable, argument, component ...": sorting only reorders - for every option, table and
+    collection the rows after `sort_components` are the rows before it, each exactly once and unchanged -/
+theorem sort_same_rows (tbl : List Str) (n : Str) (o : Opt) (e : Entity) :
+    (coll n (sortComponents tbl o e)).Perm (coll n e) := by
+  rw [coll_sortComponents]
+  cases keyFn o with
+  | none => exact List.Perm.refl _
+  | some k =>
+    by_cases h : tbl.contains n = true
+    · simp only [h, if_true]; exact sortK_perm k _
+    · simp only [h]; exact List.Perm.refl _
+
+open Ford.SortComp in
+/-- `sort: src` (the default) touches nothing -/
+theorem sort_src_identity (tbl : List Str) (e : Entity) : sortComponents tbl .src e = e := rfl
+
+open Ford.SortComp in
+/-- the keys of the code's SORT_KEY_FUNCTIONS (regenerated) are the options the model knows, and the one whose entry is
+    `None` is `src` -/
+theorem sort_options_known :
+    sortOptions.map (fun p => (optOf p.1, p.2)) =
+      [(some .alpha, false), (some .permission, false), (some .permissionAlpha, false), (some .type, false),
+       (some .typeAlpha, false), (some .src, true)] := by decide
+
+open Ford.SortComp in
+/-- what happens when the argument collection *is* sorted: `subroutine solve(n, matrix, info)` is headed
+    `solve(info, matrix, n)` with `sort: alpha` (the table of the code with `args` added) -/
+theorem sorted_heading_args_witness :
+    let v (nm : String) : Item := ⟨nm.toList, some "public".toList, "variable".toList, some ⟨"real".toList, [], [], []⟩, none, none⟩
+    let e : Entity := [("args".toList, [v "n", v "matrix", v "info"])]
+    headingArgs "args".toList (sortComponents ("args".toList :: sortedCollections) .alpha e)
+      = ["info".toList, "matrix".toList, "n".toList] ∧
+    headingArgs "args".toList (sortComponents sortedCollections .alpha e)
+      = ["n".toList, "matrix".toList, "info".toList] := by decide
+
+example : (Ford.SortComp.sortK (fun (p : Nat × Nat) => .int p.1) [(2, 0), (1, 1), (2, 2), (1, 3)]) = [(1, 1), (1, 3), (2, 0), (2, 2)] := by
+  decide
+
+open Ford.TypeSpec Ford.CharSel in
+/-- obligation on the regenerated branches of the loop over the parameters of a `character(...)` selector: run in
+    source order, first branch that fires, they are the loop of the hand-written model of `parse_type` - for every
+    list of parameters and every state.  (Dropping an "already set" guard changes the regenerated branches and this
+    proof no longer goes through.) -/
+theorem char_selector_chain_as_modelled (args : List Str) (len kind : Option Str) :
+    charSel charSelRules args len kind = charArgs args len kind := by
+  unfold charSelRules
+  induction args generalizing len kind with
+  | nil => simp [charSel, charArgs]
+  | cons a as ih =>
+    cases hk : kindMatch a with
+    | none =>
+      cases len <;> cases kind <;> cases hl : lenMatch a <;>
+        simp [charSel, charArgs, stepArg, fire, hl, hk, ih]
+    | some v =>
+      cases hq : hasQuote v <;> cases len <;> cases kind <;> cases hl : lenMatch a <;>
+        simp [charSel, charArgs, stepArg, fire, hl, hk, hq, ih]
+
+open Ford.TypeSpec Ford.CharSel Ford.Show in
+/-- "type, kind/length": both parameters given positionally - `character(n, k)` with `n` a digit string, a name, `*`
+    or `:` and `k` any text without blank, parenthesis, comma, `=` or quote (an integer literal `4` in particular) -
+    are stored as length `n` and kind `k`, and the type cell reads `character(kind=k, len=n)` -/
+theorem char_selector_positional (n k : Str) (h : LenVal n) (hk : ∀ c ∈ k, kindCh c = true) (hne : k ≠ []) :
+    charSel charSelRules [n, k] none none = .ok (some n, some k) ∧
+    fullType (chars! "character") k n [] [] = (chars! "character(kind=") ++ k ++ (chars! ", len=") ++ n ++ [')'] := by
+  refine ⟨?_, ?_⟩
+  · rw [char_selector_chain_as_modelled]; exact charArgs_bare_bare n k h hk
+  · have := (full_type_text (chars! "character") k n hne (lenVal_ne h)).2.2.1
+    simpa using this
+
+open Ford.TypeSpec Ford.CharSel in
+/-- ... and the spellings with keywords, in either order, give the same two fields -/
+theorem char_selector_keywords (L K n k : Str) (hL : lower L = (chars! "len")) (hK : lower K = (chars! "kind"))
+    (h : LenVal n) (hk : ∀ c ∈ k, kindCh c = true) (hne : k ≠ []) :
+    charSel charSelRules [L ++ '=' :: n, K ++ '=' :: k] none none = .ok (some n, some k) ∧
+    charSel charSelRules [K ++ '=' :: k, L ++ '=' :: n] none none = .ok (some n, some k) ∧
+    charSel charSelRules [n, K ++ '=' :: k] none none = .ok (some n, some k) := by
+  simp only [char_selector_chain_as_modelled]
+  exact ⟨charArgs_len_kind L K n k hL hK h hk hne, charArgs_kind_len L K n k hL hK h hk hne,
+         charArgs_bare_kind K n k hK h hk hne⟩
+
+open Ford.TypeSpec Ford.CharSel in
+/-- what the chain without the guards of its two regular-expression branches does to `character(10, 4)` and
+    `character(*, 4)`: the kind overwrites the length / is taken for the length, the kind is gone; the chain of the
+    code gives length and kind -/
+theorem char_selector_unguarded_witness :
+    charSel unguardedRules [chars! "10", chars! "4"] none none = .ok (some (chars! "4"), none) ∧
+    charSel unguardedRules [chars! "*", chars! "4"] none none = .ok (some (chars! "4"), none) ∧
+    charSel soundRules [chars! "10", chars! "4"] none none = .ok (some (chars! "10"), some (chars! "4")) ∧
+    charSel soundRules [chars! "*", chars! "4"] none none = .ok (some (chars! "*"), some (chars! "4")) :=
+  ⟨rfl, rfl, rfl, rfl⟩
+
+example : Ford.CharSel.charSel charSelRules [chars! "len=3", chars! "kind=ck"] none none
+    = .ok (some (chars! "3"), some (chars! "ck")) := rfl
+
+/-! ## round 6: the heading macro `proc_line` -/
+
+open Ford.ProcLine in
+/-- obligation on the regenerated macro: its output expressions (with their filters - the BIND name goes through
+    `|e`), the separators of its two `join` filters, the literal text between the expressions and the tests of its `if`
+    statements are the ones the model `ProcLine.procLine` lays out; the test of the RESULT clause has one of the two
+    known forms and the variant flag says which -/
+theorem proc_line_as_modelled :
+    (escapeSites.filter (fun s => s.scope == "proc_line")).map (fun s => (s.expr, s.filters)) = modelledSites ∧
+    procLineJoins = modelledJoins ∧ procLineData = modelledData ∧
+    procLineTests = modelledTests procLineResultCI := by decide
+
+open Ford.ProcLine in
+/-- "bind name ... shown literally and never changes the structure of the page": for every procedure and every BIND
+    name the reader sees the name as written, and the element skeleton of the heading (in any context that leaves the
+    tokenizer in a stable state) is that of the heading with an empty name -/
+theorem heading_bind_name_inert (ci proto : Bool) (p : Proc) (hb : p.bindC ≠ []) (ctx₂ : Str)
+    (h : (stateAfter (headText ci proto p ++ " bind(".toList)).stable = true) :
+    textContent (escape p.bindC) = p.bindC ∧
+    elements (procLine ci proto p ++ ctx₂) = elements (headText ci proto p ++ " bind(".toList ++ (')' :: ctx₂)) := by
+  refine ⟨escape_text _, ?_⟩
+  have hne : p.bindC.isEmpty = false := by cases hp : p.bindC <;> simp_all
+  have := escape_inert (headText ci proto p ++ " bind(".toList) (')' :: ctx₂) p.bindC h
+  simpa [procLine, hne, List.append_assoc] using this
+
+open Ford.ProcLine in
+/-- "result name": the heading has a RESULT clause exactly when the procedure is a function whose result is not
+    named like the function (names compared case-insensitively, as Fortran does), and then it shows the result's name -/
+theorem heading_result_clause (p : Proc) (r : Str) :
+    showsResult true p = some r ↔
+      (lower p.proctype = kwFunction ∧ p.retName = some r ∧ lower p.name ≠ lower r) := by
+  unfold showsResult
+  by_cases hf : lower p.proctype = kwFunction
+  · rw [if_pos hf]
+    cases hr : p.retName with
+    | none => simp
+    | some r' =>
+      by_cases hn : lower p.name = lower r'
+      · have hd : namesDiffer true p.name r' = false := by simp [namesDiffer, hn]
+        simp only [hd]
+        constructor
+        · intro h; cases h
+        · rintro ⟨_, h2, h3⟩
+          cases h2
+          exact absurd hn h3
+      · have hd : namesDiffer true p.name r' = true := by simp [namesDiffer, hn]
+        simp only [hd, if_true]
+        constructor
+        · intro h; cases h; exact ⟨hf, rfl, hn⟩
+        · rintro ⟨_, h2, _⟩; exact h2
+  · rw [if_neg hf]
+    constructor
+    · intro h; cases h
+    · rintro ⟨h1, _⟩; exact absurd h1 hf
+
+open Ford.ProcLine in
+/-- the other form of that test (names compared as written) invents a RESULT clause for `function f1(x)` whose
+    result is declared as `F1` (finding C18-result-clause-invented); the form of the code as it is does not -/
+theorem heading_result_case_witness :
+    let p : Proc := ⟨true, "public".toList, [], "Function".toList, "f1".toList, ["x".toList], some "F1".toList, []⟩
+    showsResult false p = some "F1".toList ∧ showsResult true p = none ∧
+    procLine true false p = "public  function f1(x)".toList := by decide +kernel
+
+open Ford.ProcLine Ford.ProcPrefix Ford.SortComp in
+/-- "argument list ... is textually the declaration", end to end over the three mechanisms: the names written between
+    the parentheses of the procedure statement (`procArgs`), carried by the collection the heading is assembled from,
+    through `sort_components` with any value of the option `sort`, into the markup of `proc_line`: the heading
+    contains `(` the names in the order of the statement, joined with `, ` `)` -/
+theorem heading_shows_statement_arguments (names : List Str) (h : ∀ n ∈ names, argOk n = true)
+    (o : Opt) (e : Entity) (p : Proc) (proto : Bool)
+    (he : headingArgs headingArgsCollection e = procArgs ('(' :: joinStr [',', ' '] names ++ [')']))
+    (hp : p.args = headingArgs headingArgsCollection (sortComponents sortedCollections o e)) :
+    ∃ pre post, procLine procLineResultCI proto p = pre ++ '(' :: joinStr [',', ' '] names ++ ')' :: post := by
+  rw [heading_args_any_sort_option, he, procArgs_names names h] at hp
+  refine ⟨(if p.moduleLevel && !proto then p.permission ++ [' '] else []) ++
+            joinStr [' '] p.attribs ++ ' ' :: lower p.proctype ++ ' ' :: p.name,
+          (match showsResult procLineResultCI p with
+           | some r => " result(".toList ++ r ++ [')']
+           | none => []) ++
+          (if p.bindC.isEmpty then [] else " bind(".toList ++ escape p.bindC ++ [')']), ?_⟩
+  simp [procLine, headText, hp, List.append_assoc]
+  all_goals rfl
+
+example : Ford.ProcLine.procLine true false
+    ⟨true, "public".toList, ["pure".toList], "Function".toList, "f".toList, ["b".toList, "a".toList], some "r".toList,
+     "c, name=\"x<b>&y\"".toList⟩
+    = "public pure function f(b, a) result(r) bind(c, name=&#34;x&lt;b&gt;&amp;y&#34;)".toList := by decide
 
 end Ford.C18
